@@ -8,15 +8,17 @@
   in order; (3) a call that raises leaves the context untouched; (4) a peer HEADER_TABLE_SIZE change reaches the
   encoder once, when it is acknowledged.  (1)-(3) are proved at the level of `H2Stream.send_headers` and
   `push_stream_in_band` for every stream state, header list and configuration, and for `H2Connection.send_headers`
-  as a whole (`C29_send_headers`: priority fields, frame-size assertion included) in every state satisfying the
-  connection invariant; `H2Connection.push_stream`'s wrapper (locally_pushed, the promised stream) is covered by the
-  correspondence check and oracle_C13 (hence `_partial` below).
+  and `H2Connection.push_stream` as a whole (`C29_send_headers`: priority fields, frame-size assertion included;
+  `C29_push_stream`: the promised stream object, `locally_pushed`, the frames appended to the history carry exactly the
+  encoder's output) in every state satisfying the connection invariant, hence (`C29_every_history`) along every
+  history of covered calls, `send_headers`, `push_stream` and `receive_data`.
 -/
 import H2.Proofs.HeaderSend
 import H2.Model.ConnRecv
 import H2.Props.C29
 -- the connection-level `send_headers` (priority fields, frame-size assertion): context untouched on every raise
 -- @also H2.C29.C29_send_headers
+-- @also H2.C29.C29_push_stream
 -- @also H2.C29.C29_every_history
 
 namespace H2.C13
